@@ -24,6 +24,7 @@ RtOK(e) == /\ e.decoded_eq
 FileOK(e) == e.decoded_eq
 CliOK(e) == /\ ~e.signaled /\ ~e.timed_out /\ e.exit \in {0, 1}
             /\ e.exit = 1 => e.reported
+            /\ e.strict => e.exit = 1        \* malformed beyond argument: "exit with a reported error"
 CliConform(e) == e.must_fail => e.exit = 1
 
 Monitor(e) == CASE e.ev = "rt" -> RtOK(e) [] e.ev = "file" -> FileOK(e) [] e.ev = "cli" -> CliOK(e) [] OTHER -> FALSE
